@@ -233,6 +233,11 @@ class ImportManager:
     module_name = inspect.getmodule(value).__name__
     if isinstance(value, enum.Enum):
       value_qualname = value.__class__.__qualname__ + "." + value.name
+    elif inspect.ismethod(value) and isinstance(value.__self__, type):
+      # A classmethod is named through the class it is bound to (which may be
+      # a subclass of the class defining it).
+      module_name = inspect.getmodule(value.__self__).__name__
+      value_qualname = value.__self__.__qualname__ + "." + value.__name__
     else:
       value_qualname = value.__qualname__
     if module_name == "__main__":
